@@ -3,6 +3,7 @@ import CatiiProofs.IIndexWf
 import CatiiProofs.FromArray
 import CatiiProofs.Append
 import CatiiProofs.Filtered
+import CatiiProofs.SetUpdates
 /-!
 # C06 — index operations track NumPy on the dense array over any history
 
@@ -11,9 +12,10 @@ operation says what the operation does to that array.  **Partial**: the operatio
 far are `copy`, `shift_common()` / `shift_common(v)` (identity on the dense array, for any value
 — frequent, rare or absent), `append(other)` (concatenation, for any pair of common values and any
 row counts incl. 0, while the combined rows fit 32 bits), `filtered(mask, n)` (boolean row selection, any
-mask) and construction from arrays (C01);
+mask), the three entry-wise set updates (through the verified kernels of C08) and construction from
+arrays (C01);
 `history_partial` lifts them to arbitrary finite sequences against a NumPy-side specification
-(`specRun`).  The remaining operations of the property (update, sliced, slices1d, reindexed, collapsed, column_stack, the entry-wise set updates, the
+(`specRun`).  The remaining operations of the property (update, sliced, slices1d, reindexed, collapsed, column_stack, the
 forced queries) are modelled in `CatiiModel/IIndex.lean` statement by statement and are tied to
 the real code by the correspondence harness after **every** step of every generated history,
 with the NumPy reference semantics as the oracle on the real code; their refinement lemmas are
@@ -162,6 +164,32 @@ theorem represents_self (i : IIndex) (h : WF i) :
   cases hsh : i.shape with
   | nil => rw [hsh] at this; simp at this
   | cons a as => simp
+
+/-! ### the entry-wise set updates (the property: "entry-wise set algebra")
+
+They are run through the verified kernels of C08; `Listed es k r` says row `r` is listed under key `k`.
+The receiver only needs distinct keys and strictly increasing row ids (every well-formed index has both). -/
+
+theorem union_update_entrywise (i : IIndex) (other : List (Key × Rows)) (h : WF i)
+    (ho : ∀ e ∈ other, Kern.SSorted e.2) :
+    ∃ res, unionUpdate i other = .ok res ∧ res.common = i.common ∧ res.shape = i.shape ∧
+      ∀ k r, Listed res.entries k r ↔ Listed i.entries k r ∨ Listed other k r := by
+  obtain ⟨res, h1, h2, h3, _, _, h6⟩ := unionUpdate_spec i other h.keys h.sorted ho
+  exact ⟨res, h1, h2, h3, h6⟩
+
+theorem intersection_update_entrywise (i : IIndex) (other : List (Key × Rows)) (h : WF i)
+    (ho : ∀ e ∈ other, Kern.SSorted e.2) (hd : other.Pairwise (fun a b => a.1 ≠ b.1)) :
+    ∃ res, intersectionUpdate i other = .ok res ∧ res.common = i.common ∧ res.shape = i.shape ∧
+      ∀ k r, Listed res.entries k r ↔ Listed i.entries k r ∧ Listed other k r := by
+  obtain ⟨res, h1, h2, h3, _, _, h6⟩ := intersectionUpdate_spec i other h.keys h.sorted ho hd
+  exact ⟨res, h1, h2, h3, h6⟩
+
+theorem difference_update_entrywise (i : IIndex) (other : List (Key × Rows)) (h : WF i)
+    (ho : ∀ e ∈ other, Kern.SSorted e.2) :
+    ∃ res, differenceUpdate i other = .ok res ∧ res.common = i.common ∧ res.shape = i.shape ∧
+      ∀ k r, Listed res.entries k r ↔ Listed i.entries k r ∧ ¬ Listed other k r := by
+  obtain ⟨res, h1, h2, h3, _, _, h6⟩ := differenceUpdate_spec i other h.keys h.sorted ho
+  exact ⟨res, h1, h2, h3, h6⟩
 
 /-! Non-vacuity -/
 example : WF ⟨[([1], [0, 2]), ([2], [1])], 0, [4]⟩ := wf_sound _ (by decide)
